@@ -799,3 +799,136 @@ fn debug_one(m: &dyn Machine, ms: &MachineSpec, full_n: u32, rep: &mut Report, i
     fam.transitions += rep.transitions - t0;
     fam.violations += rep.violation_count - v0;
 }
+
+// ------------------------------------------------------------------------------------------------
+// C15: compile-time tables vs the same calls at run time
+
+pub fn consteval(machines: &[(&dyn Machine, &MachineSpec)], ems: &[(&dyn EnumMachine, &EnumSpec)]) -> Report {
+    let start = Instant::now();
+    let mut rep = Report { mode: "consteval".into(), exhaustive: true, ..Default::default() };
+    for &(m, ms) in machines {
+        let tables = m.const_tables();
+        if tables.is_empty() {
+            continue;
+        }
+        rep.machines += 1;
+        let fam_name = ms.family.clone();
+        let mut kinds = std::collections::BTreeSet::new();
+        for t in &tables {
+            kinds.insert(t.kind);
+            rep.fields += 1;
+            let ncol = t.values.len().max(1);
+            let bad = |rep: &mut Report, what: &str, trace: Vec<Step>, ct: u128, rt: String| {
+                rep.violation_count += 1;
+                rep.per_family.entry(fam_name.clone()).or_default().violations += 1;
+                if rep.violations.len() < 40 {
+                    let mut v = Violation::new(what, ms, None, trace, expect_value(ct), rt);
+                    v.spec = ms.clone();
+                    v.field_text = ms.fields.iter().map(|f| f.text.clone()).collect::<Vec<_>>().join(", ");
+                    rep.violations.push(v);
+                }
+            };
+            match t.kind {
+                "zero" | "default" => {
+                    rep.transitions += 2;
+                    rep.compared += 1;
+                    let (z, d) = m.consts();
+                    let o = if t.kind == "zero" { z } else { d.map(|x| x.0).unwrap_or(!0) };
+                    let rt = call(|| m.raw(std::hint::black_box(o)));
+                    if rt != Ok(t.table[0]) {
+                        bad(&mut rep, "const_vs_runtime", vec![Step::op(t.kind, 0, 0, 0), Step::op("raw", 0, 0, 0)], t.table[0], format!("{rt:x?}"));
+                    }
+                }
+                "build" => {
+                    for (i, a) in t.args.iter().enumerate() {
+                        rep.transitions += 2;
+                        rep.compared += 1;
+                        rep.states += 1;
+                        let args: Vec<u128> = std::hint::black_box(a.to_vec());
+                        let rt = call(|| m.raw(m.build(&args).expect("no builder adapter")));
+                        if rt != Ok(t.table[i]) {
+                            bad(&mut rep, "const_vs_runtime", vec![Step { op: "build".into(), f: 0, idx: 0, v: H(0), args: a.iter().map(|&x| H(x)).collect() }], t.table[i], format!("{rt:x?}"));
+                        }
+                    }
+                }
+                _ => {
+                    for (i, &s) in t.states.iter().enumerate() {
+                        rep.states += 1;
+                        let s = std::hint::black_box(s);
+                        match t.kind {
+                            "raw" => {
+                                rep.transitions += 2;
+                                rep.compared += 1;
+                                let rt = call(|| m.raw(m.init(s)));
+                                if rt != Ok(t.table[i]) {
+                                    bad(&mut rep, "const_vs_runtime", vec![Step::init(s), Step::op("raw", 0, 0, 0)], t.table[i], format!("{rt:x?}"));
+                                }
+                            }
+                            "get" => {
+                                rep.transitions += 2;
+                                rep.compared += 1;
+                                let rt = call(|| m.get(m.init(s), t.f, t.idx));
+                                if rt != Ok(t.table[i]) {
+                                    bad(&mut rep, "const_vs_runtime", vec![Step::init(s), Step::op("get", t.f, t.idx, 0)], t.table[i], format!("{rt:x?}"));
+                                }
+                            }
+                            "with" => {
+                                for (j, &v) in t.values.iter().enumerate() {
+                                    rep.transitions += 3;
+                                    rep.compared += 1;
+                                    let v = std::hint::black_box(v);
+                                    let rt = call(|| m.raw(m.with(m.init(s), t.f, t.idx, v)));
+                                    if rt != Ok(t.table[i * ncol + j]) {
+                                        bad(&mut rep, "const_vs_runtime", vec![Step::init(s), Step::op("with", t.f, t.idx, v), Step::op("raw", 0, 0, 0)], t.table[i * ncol + j], format!("{rt:x?}"));
+                                    }
+                                }
+                            }
+                            other => panic!("unknown table kind {other}"),
+                        }
+                    }
+                }
+            }
+        }
+        let fam = rep.per_family.entry(ms.family.clone()).or_default();
+        fam.fields += tables.len() as u64;
+        fam.states += 1;
+        if rep.samples.len() < 4 && rep.machines % 7 == 1 {
+            rep.samples.push(serde_json::json!({"decl": format!("{} {{ {} }}", ms.head, ms.fields.iter().map(|f| f.text.clone()).collect::<Vec<_>>().join(", ")),
+                "tables": tables.iter().map(|t| format!("{}[f{} idx{}]: {} states x {} values", t.kind, t.f, t.idx, t.states.len().max(t.args.len()), t.values.len().max(1))).collect::<Vec<_>>() }));
+        }
+        rep.distinct_outcomes += kinds.len() as u64;
+    }
+    for &(m, es) in ems {
+        let tables = m.const_tables();
+        if tables.is_empty() {
+            continue;
+        }
+        rep.machines += 1;
+        for t in &tables {
+            rep.fields += 1;
+            for (i, &s) in t.states.iter().enumerate() {
+                rep.states += 1;
+                rep.transitions += 1;
+                rep.compared += 1;
+                let s = std::hint::black_box(s);
+                let rt = match t.kind {
+                    "enum_from" => call(|| m.from_raw(s)),
+                    "enum_to" => call(|| m.to_raw(s as usize)),
+                    other => panic!("unknown enum table kind {other}"),
+                };
+                if rt != Ok(t.table[i]) {
+                    rep.violation_count += 1;
+                    if rep.violations.len() < 40 {
+                        let op = if t.kind == "enum_from" { Step::op("from_raw", 0, 0, s) } else { Step::op("to_raw", s as usize, 0, 0) };
+                        rep.violations.push(enum_violation(es, "const_vs_runtime", vec![op], expect_value(t.table[i]), format!("{rt:x?}")));
+                    }
+                }
+            }
+        }
+        let fam = rep.per_family.entry(format!("ENUM{}", es.n)).or_default();
+        fam.fields += tables.len() as u64;
+        fam.states += 1;
+    }
+    rep.wall_s = start.elapsed().as_secs_f64();
+    rep
+}
